@@ -109,6 +109,13 @@ func (r *Recorder) Cmds() map[string]func(ts *testscript.TestScript, neg bool, a
 	}
 }
 
+// RecordDefer records that a deferred function registered outside the script (e.g. by Params.Setup) ran.
+func (r *Recorder) RecordDefer(name, tag string) {
+	r.mu.Lock()
+	r.Defers[name] = append(r.Defers[name], tag)
+	r.mu.Unlock()
+}
+
 // Condition is the custom condition function: ctrue, cfalse; anything else is an error.
 func Condition(cond string) (bool, error) {
 	switch cond {
